@@ -337,3 +337,33 @@ for _ty in range(8):
             body_dates(_ty, _tx)
         except Exception:
             pass
+
+
+class R9(PaneBase, rename='camel'):
+    """class-level rename style; a field-level rename= is used verbatim on input AND output"""
+    plain_one: int = 0
+    start_t: int = field(default=0, rename='start_time')
+    up: int = field(default=0, rename='ID')
+
+
+make_converter(R9)
+
+
+@obligation(pre="0 <= y <= 5", witnesses=(0, -1), timeout=200)
+def body_r9(y: int, i: int, j: int) -> int:
+    """R9: class rename='camel' with fields carrying an explicit rename= that is not in that style"""
+    k = 'start_time' if y == 0 else ('startTime' if y == 1 else ('start_t' if y == 2 else ('ID' if y == 3 else ('id' if y == 4 else 'plainOne'))))
+    d = {k: i, 'plainOne': j} if k != 'plainOne' else {k: i}
+    r = roundtrip(R9, d)
+    if r == 0:
+        out = pane.into_data(R9.from_data(d), R9)
+        if set(out.keys()) != {'plainOne', 'start_time', 'ID'}:
+            return 7
+    return r
+
+
+try:
+    body_r9(0, 1, 2)
+    body_r9(1, 1, 2)
+except Exception:
+    pass
